@@ -21,6 +21,7 @@ type WorkerInit struct {
 	Patterns    []string          `json:"patterns"`
 	TimeoutMs   int               `json:"timeout_ms"`
 	StandaloneS int               `json:"standalone_s"`
+	CrossEvery  int               `json:"cross_every"`
 	WorkDir     string            `json:"work_dir"`
 	MaxInstrs   int64             `json:"max_instrs"`
 	OpenKnown   []string          `json:"open_known"`
@@ -148,6 +149,7 @@ func workerMain(initFile string) {
 	if wi.WorkDir != "" {
 		interp.StandaloneDir = wi.WorkDir
 	}
+	interp.CrossEvery = wi.CrossEvery
 	t0 := nowMs()
 	prog, by, npk, err := loadProgram(&wi)
 	if err != nil {
